@@ -315,6 +315,22 @@ func (e *Engine) verifyFunc(fn *ssa.Function, con *Contract) *VC {
 	if con != nil {
 		genv := vc.contractEnv(fn, args, st, pre, nil)
 		for _, g := range con.Ghosts {
+			if strings.HasPrefix(g.Type, "set[") && strings.HasSuffix(g.Type, "]") {
+				// ghost sets: `ghost F set[int] = empty` (membership F[k], updates setadd(F,k) / setdel(F,k))
+				kt := resolveType(g.Type[4:len(g.Type)-1], pkgOf(fn))
+				if kt == nil {
+					vc.unsupported("ghost %s: unknown key type %s", g.Name, g.Type)
+					continue
+				}
+				ls := leavesOf(kt)
+				if len(ls) != 1 || ls[0].bad {
+					vc.unsupported("ghost %s: set key type must be scalar", g.Name)
+					continue
+				}
+				gs := arraySort(ls[0].sort, sortBool)
+				st.ghost[g.Name] = Val{K: KGhost, GSort: gs, S: fmt.Sprintf("((as const %s) false)", gs)}
+				continue
+			}
 			gt := resolveType(g.Type, pkgOf(fn))
 			var v Val
 			if g.Init.Op == "call" && g.Init.Name == "arbitrary" && gt != nil {
